@@ -154,3 +154,25 @@ func Canary(t reflect.Type, n int, salt int64) []interface{} {
 	}
 	return out
 }
+
+// SmallGauss returns n elements with small integer real parts and, for complex types, small integer
+// imaginary parts as well (so that conjugation or a dropped imaginary part shows).
+func SmallGauss(t reflect.Type, n int, rng *rand.Rand, lo, hi int64) []interface{} {
+	if !model.IsComplex(t) {
+		return SmallInts(t, n, rng, lo, hi)
+	}
+	out := make([]interface{}, n)
+	for i := range out {
+		re := float64(lo + rng.Int63n(hi-lo+1))
+		im := float64(lo + rng.Int63n(hi-lo+1))
+		if im == 0 {
+			im = 1
+		}
+		if t.Kind() == reflect.Complex64 {
+			out[i] = complex(float32(re), float32(im))
+		} else {
+			out[i] = complex(re, im)
+		}
+	}
+	return out
+}
